@@ -287,6 +287,7 @@ fn gen_script(w: &RWorld, rng: &mut Rng, idx: u64, ctx: usize) -> (Input, &'stat
         }
     }
 }
+pub fn g_script_ctx(w: &RWorld, r: &mut Rng, i: u64, ctx: usize) -> (Input, &'static str) { gen_script(w, r, i, ctx) }
 pub fn g_script0(w: &RWorld, r: &mut Rng, i: u64) -> (Input, &'static str) { gen_script(w, r, i, 0) }
 pub fn g_script1(w: &RWorld, r: &mut Rng, i: u64) -> (Input, &'static str) { gen_script(w, r, i, 1) }
 pub fn g_script2(w: &RWorld, r: &mut Rng, i: u64) -> (Input, &'static str) { gen_script(w, r, i, 2) }
